@@ -508,6 +508,23 @@ func init() {
 		return e.C.Str(""), false
 	})
 
+	// --- x/net/websocket connection (the socket itself is outside the claim) ---
+	reg("(*golang.org/x/net/websocket.Conn).Close", func(e *Exec, fv *FuncV, args []Value, cc *ssa.CallCommon) (Value, bool) {
+		n, _ := e.ext["conn.close"].(int)
+		e.ext["conn.close"] = n + 1
+		return &IfaceV{}, false
+	})
+	reg("(*golang.org/x/net/websocket.Conn).Request", func(e *Exec, fv *FuncV, args []Value, cc *ssa.CallCommon) (Value, bool) {
+		pt := fv.Fn.Signature.Results().At(0).Type().(*types.Pointer)
+		return &Pointer{Obj: e.newObject(pt.Elem(), e.zero(pt.Elem()), "http request")}, false
+	})
+	reg("github.com/aukilabs/hagall-common/http.GetUserTokenFromHTTPRequest", func(e *Exec, fv *FuncV, args []Value, cc *ssa.CallCommon) (Value, bool) {
+		return e.C.Str(""), false
+	})
+	reg("github.com/aukilabs/hagall-common/http.GetAppKeyFromHagallUserToken", func(e *Exec, fv *FuncV, args []Value, cc *ssa.CallCommon) (Value, bool) {
+		return e.C.Str(""), false
+	})
+
 	// --- sort ---
 	reg("sort.Slice", func(e *Exec, fv *FuncV, args []Value, cc *ssa.CallCommon) (Value, bool) {
 		e.sortSlice(args[0], args[1].(*FuncV))
